@@ -232,6 +232,8 @@ def build(S: Sources) -> Unit:
     S(DIVAN)
     errs = []
     vfiles = guarded(lambda: list_file(S), errs, [])
+    from units import cli_common
+    vfiles = vfiles + guarded(lambda: cli_common.cfg_files(S, {"C14"}, "c14"), errs, [])
     hs = [
         KaniHarness("verif_c14::list_benches_lists", "complete", covers="Divan::list_benches -> run_action(list action)"),
         KaniHarness("verif_c14::terse_list_matches_run", "bounded", bound="one tree: group g { a, b[x, y] }; all 27 x 3 ignore / flag combinations",
